@@ -1,6 +1,6 @@
 (* Property C13 — tie (T), regeneration.  coq/Gen/C13_gen.v is written on every run by harness/c13_py2coq.py
    from the CURRENT text of deap/cma.py (class Strategy): computeParams as a whole, and of update the
-   statements defining hsig, self.sigma and self.update_count, and the default lambda_ of __init__.
+   statements defining hsig, self.sigma and self.update_count, and self.chiN and the default lambda_ of __init__.
    Here: the regenerated definitions are the hand model for all arguments and every number type, and the
    C13 theorems about the parameters and the step size restated on the regenerated definitions.
    (The matrix statements of update -- paths, C, eigh -- are tied by the correspondence only.)
@@ -64,6 +64,15 @@ Theorem C13_gen_update_count :
     E.s_count (E.update Nm eigh P st pop) = G.gen_count Nm P st ps' /\ G.gen_count Nm P st ps' = (E.s_count st).+1.
 Proof. move=> T Nm eigh P st pop; split; [exact: GE.gen_update_count | exact: GE.gen_count_eq]. Qed.
 Print Assumptions C13_gen_update_count.
+
+(* chiN of a freshly constructed strategy is the REGENERATED `sqrt(N) * (1 - 1/(4N) + 1/(21 N^2))` statement *)
+Theorem C13_gen_init_chiN :
+  forall (T : Type) (Nm : E.Num T) (eigh : seq (seq T) -> seq T * seq (seq T)) (dl : nat -> nat)
+         (centroid : seq T) (sigma : T) (k : E.kargs),
+    E.p_chiN (E.init Nm eigh dl centroid sigma k).1 = G.gen_chiN Nm (size centroid) /\
+    G.gen_chiN Nm (size centroid) = E.chiN_of Nm (size centroid).
+Proof. move=> T Nm eigh dl c s k; split; [exact: GE.gen_init_chiN | exact: GE.gen_chiN_eq]. Qed.
+Print Assumptions C13_gen_init_chiN.
 
 (* int(4 + 3 * log(N)) as written now = the default_lambda the correspondence evaluates (float instance) *)
 Theorem C13_gen_default_lambda_is_model :
